@@ -55,6 +55,21 @@ pub fn dispatch(op: &str, ty: &str, args: &[Arg]) -> Option<String> {
         | "m_single" | "m_flat" => match ty {
             "i32" => go::<i32>(op, args), "i64" => go::<i64>(op, args), "u8" => go::<u8>(op, args), "f64" => go::<f64>(op, args), "f32" => go::<f32>(op, args), _ => None },
         // float sequences: raw bit patterns of the f64 results; start/stop are given as exact dyadic rationals n/d
+        // the sequences for an INTEGER element type (start / stop are whole numbers): every element is the double
+        // converted to the element type (seeded change C16m: the two end values were converted first)
+        "logspace_t" | "geomspace_t" | "linspace_t" => {
+            fn seq<N: FromLabel + Numeric>(op: &str, args: &[Arg]) -> Option<String> {
+                let z = |i: usize| match args.get(i) { Some(Arg::Z(n)) => Some(*n), _ => None };
+                let (start, stop, num, ep) = (N::conv(false, z(0)?), N::conv(false, z(2)?), z(4)? as usize, z(5)? == 1);
+                let r = match op {
+                    "logspace_t" => Array::<N>::logspace(start, stop, Some(num), Some(ep), match args.get(6) { Some(Arg::Z(b)) => Some(*b as usize), _ => None }),
+                    "geomspace_t" => Array::<N>::geomspace(start, stop, Some(num), Some(ep)),
+                    _ => Array::<N>::linspace(start, stop, Some(num), Some(ep)),
+                };
+                Some(res_arr(&r))
+            }
+            match ty { "i8" => seq::<i8>(op, args), "i16" => seq::<i16>(op, args), "i32" => seq::<i32>(op, args), "i64" => seq::<i64>(op, args), _ => seq::<u8>(op, args) }
+        }
         "linspace" | "logspace" | "geomspace" => {
             let q = |i: usize| match (&args[i], &args[i + 1]) { (Arg::Z(n), Arg::Z(d)) => Some(*n as f64 / *d as f64), _ => None };
             let (start, stop) = (q(0)?, q(2)?);
